@@ -130,8 +130,37 @@ def repLineRaw (p : PState) (line : String) : PState × List String :=
   | [""] => (p, [])
   | _ => (p, ["bad-op"])
 
+/-- `F <k|kill> <outcome> <action…>`: the action was interrupted (a storage call failed, or the
+    process was killed) and the database reopened.  `after`: the action took effect as a whole;
+    `before`: no effect at all; `mid`: only for the actions that are two transactions (undo and
+    sync: the operations, then the working-set rebuild) — the first one took effect. -/
+def repLineF (p : PState) (line : String) : PState × List String :=
+  match line.trimAscii.toString.splitOn " " with
+  | "F" :: _ :: outcome :: rest =>
+    let inner := " ".intercalate rest
+    if outcome == "after" then repLineRaw p inner
+    else if outcome == "before" then (p, ["interrupted before"])
+    else if outcome == "mid" then
+      match rest with
+      | "U" :: _ =>
+        match commitReversed p.st (getUndoOps p.st) with
+        | .done st' true => ({ p with st := st' }, ["interrupted mid"])
+        | _ => (p, ["interrupted no-such-state"])
+      | "V" :: _ :: r =>
+        let (optoks, _) := splitColon r
+        let undo := (splitOps optoks).filterMap parseLOp
+        let p := p.note undo
+        match commitReversed p.st undo with
+        | .done st' true => ({ p with st := st' }, ["interrupted mid"])
+        | _ => (p, ["interrupted no-such-state"])
+      | "Y" :: _ =>
+        ({ p with st := { p.st with ops := p.st.ops.map fun o => (true, o.2) } }, ["interrupted mid"])
+      | _ => (p, ["interrupted no-such-state"])
+    else (p, ["bad-op"])
+  | _ => repLineRaw p line
+
 def repLine (p : PState) (line : String) : PState × List String :=
-  let (p', outs) := repLineRaw p line
+  let (p', outs) := repLineF p line
   (if line.startsWith "Q" then p' else p'.freeze, outs)
 
 end Tc.Driver
